@@ -607,6 +607,14 @@ class B:
         xt = self.t(x)
         which = which or rng.choice(["custom", "float_detour", "floor_div", "cast_bool", "sin_like", "batch_reshape"])
         self.net.desc.append("cpu:" + which)
+        if which.startswith("multi"):
+            # operators with 2-3 results (gen_multiout.py): "multi" = any kind, "multi:<kind>"; the results other than the
+            # returned one are collected in self.side_results - the caller decides whether anybody reads them
+            import gen_multiout
+
+            res = gen_multiout.cpu_multi(self, x, which.split(":", 1)[1] if ":" in which else None)
+            self.side_results = getattr(self, "side_results", []) + res[1:]
+            return res[0]
         if which == "custom":
             o = self.fm(xt.shape, xt.dtype, scale=xt.scales[0], zp=xt.zps[0])
             self.net.ops.append(Op("CUSTOM", [x], [o], None, custom_code="ThirdPartyOp",
@@ -770,7 +778,15 @@ def random_net(rng, idx=0, profile="mixed", dtype=None, max_ops=6):
             flat = b.reshape(cur, [1, hh * ww * cc])
             new = b.fc(flat, rng.choice([10, 16, 64]))
         elif kind == "cpu":
-            new = b.cpu_op(cur)
+            if profile == "cpu" and rng.random() < 0.3:
+                # a multi-output CPU operator; each further result is unread, or becomes a candidate operand / output later on
+                new = b.cpu_op(cur, "multi")
+                for side in b.side_results[-2:]:
+                    st = b.t(side)
+                    if rng.random() < 0.4 and len(st.shape) == 4 and st.dtype == xt.dtype and st.scales is not None:
+                        live.insert(rng.randint(1, len(live)), side)
+            else:
+                new = b.cpu_op(cur)
         if new is None:
             b.net.desc[-1] += ":skipped"
             continue
@@ -982,6 +998,7 @@ PATTERNS = ["multi_input", "input_npu_and_cpu", "residual", "lut_reuse", "deep_s
             "casc_s2_valid", "two_npu_islands", "concat_slices", "shared_weights", "big_fm_u65", "avgpool_chain", "minmax_lrelu", "reshape_fork", "widen_ew", "shared_consts"]
 # families defined in netgen_ext.py (imported lazily: that module imports this one)
 EXT_PATTERNS = ["lut_mixed", "shape_out", "transpose_perm", "ew_fork", "fc1_two_core"]
+EXT_PATTERNS += ["multi_out_cpu"]          # gen_multiout.py (round 5)
 PATTERNS += EXT_PATTERNS
 
 
